@@ -30,5 +30,6 @@ DevResetKeepsEvents == {"resetKeepsEvents"}
 DevClampAdoptsDt == {"clampAdoptsDt"}
 DevRecordStepTooShort == {"recordStepTooShort"}
 DevPerCallSuppression == {"perCallSuppression"}
+DevBisectAfterTurn == {"bisectAfterTurn"}
 DevCode == {"perCallSuppression"}      \* the deviations the real code has (observations, DESIGN.md section 8)
 =============================================================================
